@@ -80,6 +80,9 @@ func c12PendingQueue(c *Ctx) {
 				nLoads++
 				field := fieldNameOf(fa)
 				base, _ := an.BasePath(fa)
+				// mu held here: in this function, or by every caller of this unexported helper
+				callerHeld := c.heldByCallers(fn, fa.X, "mu", 0)
+				heldAt := func(in ssa.Instruction) bool { return an.HeldFor(ls[in], base, "mu") || callerHeld }
 				key := shortFn(topFn(fn)) + "/" + field
 				// stores that empty this field
 				var resets []*ssa.Store
@@ -146,13 +149,13 @@ func c12PendingQueue(c *Ctx) {
 						if !harmful || !isSlice {
 							continue
 						}
-						if an.HeldFor(ls[r], base, "mu") {
+						if heldAt(r) {
 							continue
 						}
 						// ownership transferred: the field was set to nil / a fresh slice after the load, under the lock, before this use
 						transferred := false
 						for _, st := range resets {
-							if emptied(st.Val, false) && an.Before(ld, st) && an.Before(st, r) && an.HeldFor(ls[st], base, "mu") {
+							if emptied(st.Val, false) && an.Before(ld, st) && an.Before(st, r) && heldAt(st) {
 								transferred = true
 							}
 						}
@@ -176,7 +179,7 @@ func c12PendingQueue(c *Ctx) {
 								return false
 							}
 							for _, rs := range resets {
-								if rs == st && emptied(st.Val, true) && an.HeldFor(ls[st], base, "mu") {
+								if rs == st && emptied(st.Val, true) && heldAt(st) {
 									return true
 								}
 							}
